@@ -76,7 +76,7 @@ func init() {
 	})
 	register(&Prop{
 		ID: "C01",
-		Rules: []*Rule{rPrefixCut, scoped(rCmpGuard, "encoding and decoding never compare or hash error values of unknown dynamic type", func(_ *core.Ctx, k string) bool {
+		Rules: []*Rule{rEncDispatch, rPrefixCut, scoped(rCmpGuard, "encoding and decoding never compare or hash error values of unknown dynamic type", func(_ *core.Ctx, k string) bool {
 			return containsAny(k, "errbase.encode", "errbase.decode", "errbase.Encode", "errbase.Decode")
 		}), rGenericMsg, scoped(rEffect, "encoding and decoding are functions of their argument: no package-level memo in the codec path", func(_ *core.Ctx, k string) bool { return containsAny(k, "ncode", "ecode", "extractPrefix") }), rDecodeReadonly, rSpecialText, scoped(rCodec, "fields that Error() reads, and the cause", codecTextFields), rOpaque, rDecodeResult, rElide, rTreeRec, rRegType, rSep, scoped(rShape, "the opaque types (what an unknowing process renders)", func(_ *core.Ctx, k string) bool { return strings.Contains(k, "opaque") }), scoped(rWalkMulti, "the encoder walk", func(_ *core.Ctx, k string) bool { return containsAny(k, "EncodeError", "is a leaf for UnwrapOnce") }), rSiblingGuard, rLoopAlias, rWriteFaithful, rErrnoTable, scoped(rFormatArg, "encoders, decoders and the opaque types", func(_ *core.Ctx, k string) bool { return containsAny(k, ".decode", ".encode", "opaque") })},
 		Explain: "Decides the structural necessary conditions of text/shape preservation: writer/reader slot agreement for every field that Error() reads (R-CODEC), verbatim keep-and-re-emit of message, details, message type and causes by unknowing processes (R-OPAQUE-TRANSPORT), cause/branch recursion on both sides in index order with no branch dropped for any count (R-TREE-RECURSION, R-WALK-MULTI), decoders rebuilding the key's type (no drift after hop 1), one separator constant removed exactly (R-SEP), and Error()/formatter shape agreement. " +
@@ -141,7 +141,7 @@ func init() {
 	})
 	register(&Prop{
 		ID: "C13",
-		Rules: []*Rule{rVisitAll, rJoinFilter, rMultiUncond, rJoinElements, rWalkMulti, rTreeRec, scoped(rOpaque, "the causes of multi-cause nodes", func(_ *core.Ctx, k string) bool {
+		Rules: []*Rule{rEncDispatch, rVisitAll, rJoinFilter, rMultiUncond, rJoinElements, rWalkMulti, rTreeRec, scoped(rOpaque, "the causes of multi-cause nodes", func(_ *core.Ctx, k string) bool {
 			return containsAny(k, "causes", "MultierrorCauses", "opaqueLeafCauses")
 		}), rOwnedBranches, rLoopAlias, rJoinNode, rDecodeNonNil, scoped(rProtocol, "multi-cause errors are leaves for UnwrapOnce", func(_ *core.Ctx, k string) bool {
 			return containsAny(k, "UnwrapOnce", "UnwrapMulti", "Unwrap() []error")
